@@ -18,6 +18,7 @@ type Run struct {
 	Tier     string
 	Repo     string
 	Out      string // /verif
+	EvDir    string // where evidence/ and replays/ are written (normally Out)
 	Scratch  string
 	Prog     *Program
 	Eng      *Engine
@@ -59,6 +60,7 @@ func cmdCheck(args []string) int {
 	tier := fs.String("tier", envOr("VERIF_TIER", "quick"), "quick|thorough")
 	repo := fs.String("repo", "/repo", "repository root")
 	out := fs.String("out", "/verif", "verif root")
+	evDir := fs.String("evidence-dir", "", "write evidence and replays under this directory instead of <out> (selftest)")
 	verbose := fs.Bool("v", false, "verbose")
 	only := fs.String("only", "", "verify only functions whose name contains this")
 	dump := fs.String("dump", "", "dump SMT of obligations whose name contains this into ./dump/")
@@ -83,6 +85,10 @@ func cmdCheck(args []string) int {
 	}
 	defer os.RemoveAll(scratch)
 	r := &Run{Prop: prop, Tier: *tier, Repo: *repo, Out: *out, Scratch: scratch, Spec: spec, Assume: map[string]bool{}, Trusted: map[string]bool{}, Start: time.Now(), Verbose: *verbose}
+	r.EvDir = *out
+	if *evDir != "" {
+		r.EvDir = *evDir
+	}
 	prog, err := LoadProgram(*repo, scratch, spec.Patterns)
 	if err != nil {
 		fmt.Fprintln(os.Stderr, "BROKEN: load failed:", err)
@@ -349,9 +355,9 @@ func (r *Run) report(all []*Obligation, unbound, engErrs []string) int {
 			exit = 2
 		}
 	}
-	os.MkdirAll(filepath.Join(r.Out, "evidence"), 0o755)
+	os.MkdirAll(filepath.Join(r.EvDir, "evidence"), 0o755)
 	b, _ := json.MarshalIndent(ev, "", " ")
-	if err := os.WriteFile(filepath.Join(r.Out, "evidence", r.Prop+".json"), append(b, '\n'), 0o644); err != nil {
+	if err := os.WriteFile(filepath.Join(r.EvDir, "evidence", r.Prop+".json"), append(b, '\n'), 0o644); err != nil {
 		fmt.Fprintln(os.Stderr, "cannot write evidence:", err)
 		return 2
 	}
